@@ -83,6 +83,10 @@ func init() {
 		for i := 0; i < n; i++ {
 			conns := 34 + rng.Intn(8)
 			fps := []int{60, 9, 30, 60}[i%4]
+			if i%2 == 1 {
+				// more connections than the 256 frame buffers a connection circulates
+				conns = 258 + rng.Intn(10)
+			}
 			var ins []wrInput
 			for k := 0; k < conns; k++ {
 				ins = append(ins, wrInput{Model: "boson", Brand: "flir", FPS: fps, ResX: 4, ResY: 2, FrameSize: 16, Frames: 2, Seed: rng.Int63(), Chunks: []int{4096}, GoMaxProcs: 2})
